@@ -687,6 +687,18 @@ class Interp:
                     if it is not None:
                         return self.fresh_int(st, "elem", it, info=("elem", bv.base, bv.off + iv.aff))
                     return TopV(ety)
+        # element of a slice at a constant position (slice patterns): (*_1)[2 of 4]
+        if len(ps) >= 2 and ps[-1]["k"] == "constindex" and ps[-2]["k"] == "deref" and not ps[-1].get("from_end"):
+            base_mp = {"l": mp["l"], "p": ps[:-2]}
+            bplace, bty = self.resolve(ctx, st, base_mp)
+            if isinstance(bplace, Place):
+                bv = self.ensure(st, bplace, bty, self.hint_of(ctx, bplace))
+                if isinstance(bv, SliceV):
+                    ety = bty[2][1] if bty and bty[0] == "ref" and bty[2][0] == "slice" else None
+                    it = self.int_ty(ety)
+                    if it is not None:
+                        return self.fresh_int(st, "elem", it, info=("elem", bv.base, bv.off + int(ps[-1]["off"])))
+                    return TopV(ety)
         place, ty = self.resolve(ctx, st, mp)
         if isinstance(place, Place):
             v = self.read(st, place)
